@@ -151,6 +151,23 @@ def typed(v):
 
 
 def run_sig(case, ctx):
+    """the parameters are called a, b, c, d - or, when the case says so, by other names (a leading underscore): a name is a name"""
+    global NAMES
+    names = case.get('names')
+    if not names:
+        return _run_sig(case, ctx)
+    old = NAMES
+    mp = dict(zip(old, names))
+    case = dict(case, call={'a': case['call']['a'], 'k': {mp.get(k_, k_): v for k_, v in case['call']['k'].items()}})
+    NAMES = list(names)
+    ctx.cls('parameter_names:%s' % ','.join(names))
+    try:
+        return _run_sig(case, ctx)
+    finally:
+        NAMES = old
+
+
+def _run_sig(case, ctx):
     from pyg_base import getargspec, getcallargs, call_with_callargs, kwargs_support
     sig, stack, call = case['sig'], case['stack'], case['call']
     rec = Rec()
@@ -492,6 +509,8 @@ def run(spec, ctx):
                     sub = lambda v: rng.choice([v, v, {'$np': ['int64', v]}, {'$np': ['int32', v]}, None, None, 0, '', False] + pool_)
                     case['call'] = {'a': [sub(v) for v in call['a']], 'k': {n_: sub(v) for n_, v in call['k'].items()}}
                 case['raise_flag'] = rng.choice(['RAISE', 'RAISE', 'RAISE0', 'RAISE2'])
+                if rng.random() < 0.1:
+                    case['names'] = rng.choice([['_a', 'b', 'c', 'd'], ['a', '_b', 'c', 'd'], ['_x', 'y', '_z', 'w'], ['x', 'y', 'z', 'w']])
                 ctx.case(case)
                 ctx.run_case(case, run_case)
                 if ctx.full():
